@@ -7,6 +7,7 @@
 
 mod ctx;
 mod dd;
+mod extract;
 mod gbs;
 mod monitors;
 mod probe;
